@@ -220,6 +220,9 @@ pub struct SrcLog {
     pub empty_offers: u64,
     pub last_give: usize,
     pub overreports: u64,
+    /// Reads whose destination slice held more allocator-poison bytes than the source's own data
+    /// can explain: uninitialised memory was handed to `Read::read`.
+    pub poisoned_offers: u64,
 }
 
 pub struct Source {
@@ -233,6 +236,7 @@ pub struct Source {
     prefill: Rc<RefCell<bool>>,
     overreported: bool,
     burst_left: u32,
+    poison_in_data: usize,
 }
 
 impl Source {
@@ -275,6 +279,7 @@ impl Source {
                 prefill: Rc::new(RefCell::new(false)),
                 overreported: false,
                 burst_left: 0,
+                poison_in_data: 0,
             },
             log,
         )
@@ -296,6 +301,14 @@ impl Read for Source {
             log.calls += 1;
             log.min_offer = log.min_offer.min(buf.len());
             log.max_offer = log.max_offer.max(buf.len());
+            // the slice a reader offers holds zeros or stale bytes of this source, nothing else
+            if self.poison_in_data == 0 {
+                self.poison_in_data = 1 + self.data.iter().filter(|&&b| b == crate::alloc::POISON_BYTE).count();
+            }
+            let poison = buf.iter().take(1 << 16).filter(|&&b| b == crate::alloc::POISON_BYTE).count();
+            if poison > self.poison_in_data + 16 {
+                log.poisoned_offers += 1;
+            }
         }
         if log.terminal_returned {
             log.calls_after_terminal += 1;
